@@ -574,3 +574,19 @@ contract(JP + "_print_Assignment", params={"self": "any", "expr": "any"}, ret="P
          ensures={"slot_n_is_written_to_the_variable_the_template_returns": "result == JAX_EXPECT(expr)"},
          properties=("C03", "C04"), note="BOUNDED instances: values[n] = e becomes _values_n = e (the names the JAX method template collects); "
                                          "every other assignment is left to the inherited printer")
+
+
+# ----------------------------------------------------------------------------------------------- class frames
+# A printer class is described by the contracts of its overrides; an override the sidecar has never seen (or one that has gone)
+# means the description is stale: the affected properties become undecided (never a violation by itself).
+def frame(cls, under_contract, acknowledged=(), properties=()):
+    contract("frame:" + cls, frame={"under_contract": list(under_contract), "acknowledged": list(acknowledged)}, properties=properties)
+
+
+frame("gotranx.codegen.python.GotranPythonCodePrinter",
+      ["_print_Float", "_print_Piecewise", "_print_And", "_print_Or", "_print_Mod", "_print_Not", "_print_Equality", "_print_sign"],
+      acknowledged=["_kf", "_kc", "_hprint_Pow", "_print_MatrixElement"], properties=("C01", "C03", "C14"))
+frame("gotranx.codegen.c.GotranCCodePrinter", ["_print_Float", "_print_Piecewise"], acknowledged=["__init__"], properties=("C02",))
+frame("gotranx.codegen.jax.JaxPrinter", ["_print_Assignment"], properties=("C03",))
+frame("gotranx.codegen.ode.BaseGotranODECodePrinter", ["_print_Relational", "_print_Exp1", "_print_Or", "_print_And", "_print_Piecewise"],
+      acknowledged=["_print_BooleanFalse", "_print_BooleanTrue"], properties=("C11",))
